@@ -313,6 +313,17 @@ class Session:
                         chain.append((st, cur, src_before, nxt))
                         cur = nxt
                     extra["chain"] = chain
+                    if op.get("then") and cur is not t:
+                        th = op["then"]
+                        snaps = [(src, self.snapshot(src)) for _, src, _, _ in chain]
+                        try:
+                            if th[0] == "newcol":
+                                cur[th[1]] = np.arange(len(cur))
+                            elif th[0] == "delcol" and th[1] in cur._col_names and th[1] != cur._index:
+                                del cur[th[1]]
+                        except Exception:
+                            pass
+                        extra["after_then"] = [(src, before, self.snapshot(src)) for src, before in snaps]
                     val = {"cols": list(cur._col_names), "nrows": len(cur),
                            "index": [str(x) for x in cur._data[cur._index]],
                            "rect": self.rect(cur) is None,
@@ -331,7 +342,13 @@ class Session:
         self.lines.append(line)
         if t is None:
             return
-        self.oracles(op, t, exc, val, extra, locals().get("col_before"))
+        try:
+            self.oracles(op, t, exc, val, extra, locals().get("col_before"))
+        except Exception:
+            # a table an earlier failing step already corrupted may not even be inspectable: the failure is
+            # on record, the rest of this history adds nothing; otherwise this is a harness error (exit 2)
+            if not any(f["hist"] == self.hist and not f.get("known") for f in self.failures):
+                raise
 
     # ---- oracles ----
     def oracles(self, op, t, exc, val, extra, col_before):
@@ -412,6 +429,15 @@ class Session:
             st["c14_chains"] = st.get("c14_chains", 0) + 1
             if "before" in extra and self.snapshot_differs(extra["before"], self.snapshot(t)):
                 self.fail("C14", "source-changed", {"steps": op["steps"]})
+            for src, before, after in extra.get("after_then", []):
+                if self.snapshot_differs(before, after):
+                    self.fail("C14", "source-changed-by-assignment-to-derived-table",
+                              {"steps": op["steps"], "then": op.get("then"), "source_columns_before": before[1], "after": after[1]})
+                    break
+                why = self.rect(src)
+                if why:
+                    self.fail("C14", "source-not-rectangular-after-assignment-to-derived-table", {"steps": op["steps"], "why": why})
+                    break
             for stp, src, src_before, nxt in extra.get("chain", []):
                 st["c14_derivations"] = st.get("c14_derivations", 0) + 1
                 why = self.rect(nxt)
@@ -674,7 +700,10 @@ def gen_c14(rng, sess):
                     steps.append(["concatenate"])
                     cur_n = None
             if steps:
-                sess.step({"op": "derive", "steps": steps})
+                op2 = {"op": "derive", "steps": steps}
+                if rng.random() < 0.5:
+                    op2["then"] = rng.choice([["newcol", "extra_y"], ["delcol", rng.choice(["v", "w", "s"])]])
+                sess.step(op2)
         elif r < 0.85:
             sess.step({"op": "exprcol", "expr": rng.choice(["v+2*w", "v*w-x", "x/2+v", "np.sqrt(x)+w", "v**2"]), "via_cols": rng.random() < 0.4})
         else:
